@@ -1,2 +1,3 @@
+pub mod edit;
 pub mod select;
 pub mod tree;
